@@ -1330,6 +1330,10 @@ impl Zeroconf {
                 debug!("Unregistering service during shutdown: {}", &fullname);
 
                 for intf in self.my_intfs.values() {
+                    if !self.was_announced(info, intf.index) {
+                        continue;
+                    }
+
                     if let Some(sock) = self.ipv4_sock.as_ref() {
                         self.unregister_service(info, intf, &sock.pktinfo);
                     }
@@ -2284,6 +2288,18 @@ impl Zeroconf {
         if !invalid_intf_addrs.is_empty() {
             let _ = self.send_cmd_to_self(Command::InvalidIntfAddrs(invalid_intf_addrs));
         }
+    }
+
+    /// Whether `info` has been announced on the interface `if_index`: it is
+    /// announced now, or it is being probed again after a re-registration while
+    /// the records of its earlier announcement are still out there.
+    fn was_announced(&self, info: &ServiceInfo, if_index: u32) -> bool {
+        info.get_status(if_index) == ServiceStatus::Announced
+            || self.dns_registry_map.get(&if_index).is_some_and(|registry| {
+                registry
+                    .active
+                    .contains_key(registry.resolve_name(info.get_fullname()))
+            })
     }
 
     fn unregister_service(
@@ -3690,6 +3706,12 @@ impl Zeroconf {
                 let mut timers = Vec::new();
 
                 for (if_index, intf) in self.my_intfs.iter() {
+                    // Only withdraw what was announced: a service still probing on
+                    // this interface never claimed its names there.
+                    if !self.was_announced(&info, *if_index) {
+                        continue;
+                    }
+
                     if let Some(sock) = self.ipv4_sock.as_ref() {
                         let packet = self.unregister_service(&info, intf, &sock.pktinfo);
                         // repeat for one time just in case some peers miss the message
